@@ -6,7 +6,11 @@
 // Oracle: (1) every variable in a dump is explained by the reference environment and no value of a
 // non-passed caller variable appears anywhere in it; (2) across consecutive invocations a changed
 // hashed pass variable re-runs the action (action probe) and shows the new value, anything else
-// neither re-runs it nor changes a byte of the output.
+// neither re-runs it nor changes a byte of the output; (3) at every invocation that follows an
+// unset <-> exported-empty transition of a passed variable, after a change of a caller variable that
+// an `env = {...}` value names, and at the end of every history, plz-out is wiped and the repository
+// built FRESH under the same caller environment: every variable of the incremental dump that is not
+// a passunsafeenv variable must equal the fresh one (present/absent included).
 package c10
 
 import (
@@ -31,6 +35,7 @@ type tgt struct {
 	HasPass bool              `json:"has_pass_env"`
 	Env     map[string]string `json:"env,omitempty"`
 	Src     string            `json:"src,omitempty"` // label of an upstream target used as source
+	EnvRefs map[string]string `json:"env_refs,omitempty"` // env key -> name of the caller variable (never passed to this target) its value references
 	srcIdx  int
 }
 
@@ -44,6 +49,7 @@ type spec struct {
 	BuildEnv  map[string]string `json:"buildenv,omitempty"`
 	Lang      string            `json:"lang,omitempty"`
 	Roles     []string          `json:"role_names"`
+	Refs      []string          `json:"env_referenced_names,omitempty"` // caller variables named by `$NAME` inside env = {...} values
 }
 
 var rolePool = []string{"VA", "VB_X", "APP_TOKEN", "CC_FLAGS", "VA_EXTRA", "V", "HTTPS_PROXY"}
@@ -112,6 +118,41 @@ func generate(rng *rand.Rand) *spec {
 				t.Env["T_OPT"] = "o" + x.Token(rng, 6)
 			}
 		}
+		if rng.Intn(5) < 2 {
+			// an env value that names a caller variable which is NOT passed to this target: a role passed
+			// elsewhere only, a look-alike of a passed name, an ordinary shell variable, a random name
+			var cands []string
+			for _, n := range s.Roles {
+				cands = append(cands, n, n+"_EXTRA")
+			}
+			cands = append(cands, "USER", "EDITOR", "CFLAGS", "ZQ_"+strings.ToUpper(x.Token(rng, 5)), "ZQ_"+strings.ToUpper(x.Token(rng, 5)))
+			var ok []string
+			for _, n := range cands {
+				if !s.visible(t, n) && !fixedNames[n] {
+					ok = append(ok, n)
+				}
+			}
+			ref := x.Choose(rng, ok)
+			if t.Env == nil {
+				t.Env = map[string]string{}
+			}
+			var v string
+			switch rng.Intn(4) {
+			case 0:
+				v = "$" + ref
+			case 1:
+				v = "r" + x.Token(rng, 4) + "-${" + ref + "}-z"
+			case 2:
+				v = "$PKG/$" + ref + "/" + x.Token(rng, 4)
+			default:
+				v = "r" + x.Token(rng, 4) + " $" + ref
+			}
+			t.Env["R_OPT"] = v
+			t.EnvRefs = map[string]string{"R_OPT": ref}
+			if !has(s.Refs, ref) {
+				s.Refs = append(s.Refs, ref)
+			}
+		}
 		if i > 0 && rng.Intn(3) == 0 {
 			t.srcIdx = rng.Intn(i)
 			t.Src = s.Targets[t.srcIdx].label()
@@ -120,7 +161,13 @@ func generate(rng *rand.Rand) *spec {
 	}
 	if !anyPass && len(s.CfgPass) == 0 {
 		t := s.Targets[rng.Intn(len(s.Targets))]
-		t.HasPass, t.PassEnv = true, []string{s.Roles[rng.Intn(len(s.Roles))]}
+		var ok []string
+		for _, n := range s.Roles {
+			if t.EnvRefs["R_OPT"] != n {
+				ok = append(ok, n)
+			}
+		}
+		t.HasPass, t.PassEnv = true, []string{x.Choose(rng, ok)}
 	}
 	return s
 }
@@ -254,6 +301,11 @@ func newHist(s *spec, rng *rand.Rand, work string) *hist {
 	}
 	h.noise = append(h.noise, lookalikes...)
 	h.noise = append(h.noise, x.SortedKeys(h.derived)...)
+	for _, n := range s.Refs {
+		if !has(s.Roles, n) && !has(h.noise, n) {
+			h.noise = append(h.noise, n)
+		}
+	}
 	for i := 0; i < 6; i++ {
 		h.noise = append(h.noise, "ZQ_"+strings.ToUpper(x.Token(rng, 5)))
 	}
@@ -288,8 +340,11 @@ func (h *hist) value(n string) string {
 func (h *hist) initial() callerEnv {
 	e := callerEnv{}
 	for _, n := range h.s.Roles {
-		if h.rng.Intn(4) != 0 {
+		switch c := h.rng.Intn(8); {
+		case c < 5:
 			e[n] = h.value(n)
+		case c == 5:
+			e[n] = "" // exported, empty
 		}
 	}
 	for _, n := range h.noise {
@@ -297,7 +352,23 @@ func (h *hist) initial() callerEnv {
 			e[n] = h.value(n)
 		}
 	}
+	for _, n := range h.s.Refs {
+		if _, set := e[n]; !set && h.rng.Intn(3) != 0 {
+			e[n] = h.value(n)
+		}
+	}
 	return e
+}
+
+func presence(e callerEnv, n string) string {
+	v, set := e[n]
+	switch {
+	case !set:
+		return "unset"
+	case v == "":
+		return "empty"
+	}
+	return "value"
 }
 
 func (h *hist) noiseChange(e callerEnv, k int) {
@@ -338,6 +409,36 @@ func (h *hist) step(prev callerEnv, past []callerEnv) (callerEnv, string) {
 		if inT || has(s.CfgPass, n) {
 			hashedNames = append(hashedNames, n)
 		}
+	}
+	// A passed variable that is unset or exported empty: flip between the two. The action can tell
+	// them apart (`env`, ${V+x}, set -u), so whatever plz hands to the action must be what it hashed.
+	var hollow []string
+	for _, n := range hashedNames {
+		if presence(e, n) != "value" {
+			hollow = append(hollow, n)
+		}
+	}
+	if len(hollow) > 0 && h.rng.Intn(3) == 0 {
+		n := x.Choose(h.rng, hollow)
+		if presence(e, n) == "unset" {
+			e[n] = ""
+			return e, "passed-unset-to-empty"
+		}
+		delete(e, n)
+		return e, "passed-empty-to-unset"
+	}
+	// A caller variable that some env = {...} value names (never passed to that target).
+	if len(s.Refs) > 0 && h.rng.Intn(4) == 0 {
+		n := x.Choose(h.rng, s.Refs)
+		switch c := h.rng.Intn(6); {
+		case presence(e, n) == "unset" || c < 4:
+			e[n] = h.value(n)
+		case c == 4:
+			delete(e, n)
+		default:
+			e[n] = ""
+		}
+		return e, "env-referenced-change"
 	}
 	kind := h.rng.Intn(10)
 	switch {
@@ -414,6 +515,17 @@ type stepRec struct {
 	Kind    string   `json:"kind"`
 	Env     []string `json:"caller_env"`
 	Started []string `json:"started"`
+	Fresh   bool     `json:"followed_by_fresh_build,omitempty"`
+}
+
+// stepsSince counts the invocations since the action with this id last started (0 = in the latest one).
+func stepsSince(trail []stepRec, id string) int {
+	for j := len(trail) - 1; j >= 0; j-- {
+		if x.Ran(trail[j].Started, id) {
+			return len(trail) - 1 - j
+		}
+	}
+	return len(trail)
 }
 
 func TestC10(t *testing.T) {
@@ -426,7 +538,7 @@ func TestC10(t *testing.T) {
 	if p, err := filepath.EvalSymlinks(bin); err == nil {
 		binDir = filepath.Dir(p)
 	}
-	n := r.Pick(32, 600)
+	n := r.Pick(28, 520)
 	envsPer := 5 // invocations after the first, per history (a count, not scaled by VERIF_SCALE so that scaled runs are prefixes of full runs)
 	if !r.Quick() {
 		envsPer = 8
@@ -442,6 +554,7 @@ func TestC10(t *testing.T) {
 		var past []callerEnv
 		var trail []stepRec
 		prevOut := map[string]string{}
+		lastRunEnv := map[string]callerEnv{} // label -> caller environment of the invocation in which its action last ran
 		var prev callerEnv
 		for step := 0; step <= envsPer; step++ {
 			var cur callerEnv
@@ -569,6 +682,12 @@ func TestC10(t *testing.T) {
 					}
 				}
 				r.Obs("nonpassed_tokens_searched", int64(len(h.tokens)))
+				for _, k := range x.SortedKeys(tg.EnvRefs) {
+					if presence(cur, tg.EnvRefs[k]) == "value" {
+						r.Obs("env_dict_references_checked", 1)
+						r.ObsDistinct("env_dict_reference_classes", s.classOf(tg.EnvRefs[k], h.derived))
+					}
+				}
 				// documented values that a caller look-alike must not disturb
 				want := map[string]string{"HOME": dump["TMP_DIR"], "TMPDIR": dump["TMP_DIR"], "PWD": dump["TMP_DIR"], "PKG": tg.Pkg, "NAME": tg.Name,
 					"PLZ_ENV": "1", "PYTHONHASHSEED": "42", "PATH": binDir + ":/usr/local/bin:/usr/bin:/bin", "LANG": "en_GB.UTF-8",
@@ -580,6 +699,9 @@ func TestC10(t *testing.T) {
 					want[strings.ReplaceAll(strings.ToUpper(bk), "-", "_")] = bv
 				}
 				for k, v := range tg.Env {
+					if _, isRef := tg.EnvRefs[k]; isRef {
+						continue // what an unresolvable reference turns into is not specified; only that the caller cannot influence it (token search, (2), (3))
+					}
 					want[k] = strings.ReplaceAll(v, "$PKG", tg.Pkg)
 				}
 				for _, k := range x.SortedKeys(want) {
@@ -633,6 +755,89 @@ func TestC10(t *testing.T) {
 					}
 				}
 				prevOut[tg.label()] = out
+				if ran {
+					lastRunEnv[tg.label()] = cur
+				}
+			}
+			// (3) incremental == fresh, where the caller environment is what separates them
+			hollowMove := ""
+			if step > 0 {
+				for _, nme := range s.Roles {
+					pp, cp := presence(prev, nme), presence(cur, nme)
+					if pp != cp && pp != "value" && cp != "value" {
+						for _, tg := range s.Targets {
+							if s.hashed(tg, nme) {
+								hollowMove = pp + "-to-" + cp
+							}
+						}
+					}
+				}
+			}
+			if hollowMove != "" || step == envsPer {
+				trail[len(trail)-1].Fresh = true
+				lib.RemoveAll(filepath.Join(sb.Repo, "plz-out"))
+				sb.ResetProbe()
+				fres := sb.Plz(bin, cur.list(), 120*time.Second, "build", "//...")
+				if fres.TimedOut {
+					r.Inconclusive(fmt.Sprintf("history %d step %d: fresh build timed out", i, step))
+					return
+				}
+				r.Obs("fresh_builds", 1)
+				if hollowMove != "" {
+					r.Obs("fresh_builds_after_unset_empty_transition", 1)
+					r.ObsDistinct("unset_empty_transitions", hollowMove)
+				}
+				if fres.Exit != 0 {
+					wit["stderr"] = lib.Tail(fres.Stderr, 1500)
+					r.Violation("fresh-build-fails/"+kind, fmt.Sprintf("plz build of the same tree with an empty plz-out exits %d (the incremental build succeeded)", fres.Exit), wit, i)
+					return
+				}
+				for _, tg := range s.Targets {
+					fout, ok := x.ReadFile(x.Gen(sb.Repo, tg.Pkg, tg.Name+".env"))
+					if !ok {
+						r.Violation("output-missing/fresh-build", "fresh build succeeded but the target's output is missing: "+tg.label(), wit, i)
+						return
+					}
+					inc := prevOut[tg.label()]
+					id, _ := parseDump(inc)
+					fd, _ := parseDump(fout)
+					keys := map[string]bool{}
+					for k := range id {
+						keys[k] = true
+					}
+					for k := range fd {
+						keys[k] = true
+					}
+					for _, k := range x.SortedKeys(keys) {
+						if s.visible(tg, k) && !s.hashed(tg, k) {
+							continue // passunsafeenv: visible, by design not a reason to rebuild
+						}
+						iv, ihas := id[k]
+						fv, fhas := fd[k]
+						if iv == fv && ihas == fhas {
+							continue
+						}
+						class := k
+						if s.hashed(tg, k) {
+							class = s.level(tg, k) + "/" + presence(lastRunEnv[tg.label()], k) + "-to-" + presence(cur, k)
+						} else if _, isRef := tg.EnvRefs[k]; isRef {
+							class = "env-dict-value-naming-" + s.classOf(tg.EnvRefs[k], h.derived)
+						}
+						show := func(v string, has bool) string {
+							if !has {
+								return "(absent)"
+							}
+							return k + "=" + v
+						}
+						wit["target"], wit["incremental_dump"], wit["fresh_dump"] = tg.label(), inc, fout
+						wit["caller_env_when_the_action_last_ran"] = lastRunEnv[tg.label()].list()
+						r.Violation("incremental-differs-from-fresh/"+class, fmt.Sprintf("%s: the up-to-date output (action last ran %d invocation(s) ago) shows %s, a fresh build under the current caller environment shows %s", tg.label(), stepsSince(trail, tg.id()), show(iv, ihas), show(fv, fhas)), wit, i)
+						return
+					}
+					r.Obs("fresh_comparisons_equal", 1)
+					prevOut[tg.label()] = fout
+					lastRunEnv[tg.label()] = cur
+				}
 			}
 			past = append(past, cur)
 			prev = cur
@@ -641,5 +846,6 @@ func TestC10(t *testing.T) {
 			r.Sample(map[string]any{"spec": s, "trail": trail})
 		}
 	})
-	r.RequireObserved("invocations", "actions_executed", "required_reruns_observed", "forbidden_or_unneeded_reruns_absent", "passed_values_checked", "nonpassed_tokens_searched")
+	r.RequireObserved("invocations", "actions_executed", "required_reruns_observed", "forbidden_or_unneeded_reruns_absent", "passed_values_checked", "nonpassed_tokens_searched",
+		"fresh_builds", "fresh_builds_after_unset_empty_transition", "fresh_comparisons_equal", "env_dict_references_checked")
 }
